@@ -7,6 +7,8 @@ import math
 
 import numpy as np
 
+from props import c13_ext as X
+
 LEVEL = "proof"
 MANIFEST_ENTRY = {
     "category": "proof",
@@ -396,9 +398,12 @@ def case_exact(ctx, drv, case):
     # ---- exact oracle for the predicate: is the correlation peak unique?
     cc = cc_int(ref, im)
     uniq, p, margin = unique_peak(cc)
-    if rat(mnp["gap"]) == 0 or mnp["degenerate"] or rat(mto["gap"]) == 0:
-        ctx.dist["exact:rejected(non-unique peak or degenerate parabola)"] += 1
+    if rat(mnp["gap"]) == 0 or rat(mto["gap"]) == 0:
+        ctx.dist["exact:rejected(non-unique peak)"] += 1
         return
+    if mnp["degenerate"]:
+        # a flat triple around the peak: the repaired parabolic_peak returns 0.0 (as the torch variant always did) and so does the model
+        ctx.dist["exact:flat triple around the peak (guarded parabola)"] += 1
     # ---- implementation: NumPy
     pos = bool(case.get("positional"))
     ctx.dist[f"exact:call form={'positional' if pos else 'keyword'}"] += 1
@@ -931,6 +936,14 @@ def run_case(ctx, drv, case):
         case_drift(ctx, case)
     elif s == "history":
         case_history(ctx, case)
+    elif s == "mhist":
+        X.case_mhist(ctx, case)
+    elif s == "forms":
+        X.case_forms(ctx, case)
+    elif s == "degen":
+        X.case_degen(ctx, drv, case)
+    elif s == "stages":
+        X.case_stages(ctx, drv, case)
     else:
         raise ValueError(s)
 
@@ -975,6 +988,19 @@ def run(ctx):
         rng = ctx.rng.fork(7)
         for i in range(ctx.n(60, 600)):
             run_case(ctx, drv, gen_history(rng.fork(i)))
+        # growth round 5 (c13_ext.py): histories on the module with rejected calls, input forms, degenerate shapes, internal stages
+        rng = ctx.rng.fork(8)
+        for i in range(ctx.n(70, 700)):
+            run_case(ctx, drv, X.gen_mhist(rng.fork(i)))
+        rng = ctx.rng.fork(9)
+        for i in range(ctx.n(80, 800)):
+            run_case(ctx, drv, X.gen_forms(rng.fork(i), i))
+        rng = ctx.rng.fork(10)
+        for i in range(ctx.n(50, 500)):
+            run_case(ctx, drv, X.gen_degen(rng.fork(i)))
+        rng = ctx.rng.fork(11)
+        for i in range(ctx.n(50, 500)):
+            run_case(ctx, drv, X.gen_stages(rng.fork(i)))
     finally:
         drv.close()
 
@@ -984,7 +1010,7 @@ def replay(ctx, rep):
     case = rep.get("case") or (rep.get("correspondence_disagreements") or [{}])[0].get("case")
     if not case:
         return False
-    case = {k: v for k, v in case.items() if k not in ("failing_call", "dtype", "pedestal_flag")}
+    case = {k: v for k, v in case.items() if k not in ("failing_call", "failing_op", "dtype", "pedestal_flag")}
     if case.get("stream") == "signature":
         check_signatures(ctx)
         return True
